@@ -10,7 +10,7 @@ ID = "C16"
 NEEDS_SHIM = False
 RULE = (
     "histories of <=4 registration calls (constructor metrics= - possibly naming one axis set twice under different spellings - and set_metrics) over a pool of 6-12 metric variables "
-    "(two variants per (axes, position) slot - the second of a two-axis slot possibly stored with transposed dimensions -, 1-2 axis sets), each call naming 1-3 variables at pairwise different "
+    "(on a dataset whose dimensions have coordinate variables, none, or only some; two variants per (axes, position) slot - the second of a two-axis slot possibly stored with transposed dimensions -, 1-2 axis sets), each call naming 1-3 variables at pairwise different "
     "positions with overwrite True/False and key/value spelled as str/tuple/list; all histories of length <=2 over one "
     "small pool are enumerated exhaustively (600), longer ones are seeded. A shadow registry (slot -> latest variable; "
     "occupied slot without overwrite => refusal, slot unchanged) is advanced on every call and compared behaviourally "
@@ -92,11 +92,15 @@ def gen_case(rng, i, tier):
             hist[0]["kspell"] = "tuple"
         if len(hist[0]["axes"]) == 1 and hist[1]["kspell"] == "reversed-tuple":
             hist[1]["ctor"] = False  # a one-axis set has no second tuple spelling
-    return {"layout": layout, "pool": pool, "history": hist, "mseed": rng.getrandbits(31), "family": "seeded"}
+    # the dataset's dimensions may come without coordinate variables ("dimensions without coordinates"): all, none, some
+    alld = [d for a in axn for d in cm[a].values()]
+    k = rng.random()
+    withdim = True if k < 0.6 else (False if k < 0.8 else [d for d in alld if rng.random() < 0.5])
+    return {"layout": layout, "pool": pool, "history": hist, "mseed": rng.getrandbits(31), "family": "seeded", "withdim": withdim}
 
 
 def build_ds(desc):
-    ds = gen.build_ds(desc["layout"])
+    ds = gen.build_ds(desc["layout"], with_coords=desc.get("withdim", True))
     cm = gen.layout_coords(desc["layout"])
     r = np.random.default_rng(desc["mseed"])
     for v in desc["pool"]:
